@@ -273,3 +273,22 @@ func FatalNoShrink(msg string) {
 var ctxDump func() string
 
 var searchWatchdogLimit = 10 * time.Second
+
+// hangLimit bounds calls that must return: a call of the library that never returns is a
+// violation of whatever property promises its result, and cannot be shrunk (the abandoned
+// goroutine keeps running), so it is reported through FatalNoShrink.
+var hangLimit = 120 * time.Second
+
+// Guard runs f and returns its result; if f does not return within hangLimit the run ends
+// with a not-shrinkable violation.
+func Guard[T any](what string, f func() T) T {
+	ch := make(chan T, 1)
+	go func() { ch <- f() }()
+	select {
+	case v := <-ch:
+		return v
+	case <-time.After(hangLimit):
+		FatalNoShrink(fmt.Sprintf("%s did not return within %v", what, hangLimit))
+		panic("unreachable")
+	}
+}
